@@ -125,6 +125,66 @@ fn greased(out: &mut Out, rng: &mut Rng, p: u8, batch_size: u8, want_replies: us
     (total, failed)
 }
 
+fn real_binary_grease(ctx: &Ctx, out: &mut Out, rng: &mut Rng) {
+    use crate::procs::*;
+    use crate::refimpl::crypto::{Proto, RefKey};
+    let seed = rng.bytes(32);
+    let pk = RefKey::from_seed(&seed).public();
+    let p = [7u32, 30, 50, 12][((ctx.shard / 2 + ctx.seed) % 4) as usize]; // (p = 1 has too little power over 2400 replies)
+    let mut cfg = SrvCfg::new(free_port(false), &seed);
+    cfg.num_workers = Some(2);
+    cfg.fault_percentage = Some(p);
+    cfg.via_env = ctx.shard % 2 == 1;
+    let Ok(mut sp) = spawn_server(&ctx.bins, &cfg, &ctx.scratch, "c02grease", None) else {
+        out.inconclusive("spawn failed");
+        return;
+    };
+    // readiness: any verifying reply (with p = 50 half of the attempts fail by design)
+    if sp.wait_ready(&pk, std::time::Duration::from_secs(10)).is_err() {
+        out.inconclusive("real server (fault injection on) not ready");
+        return;
+    }
+    let s = std::net::UdpSocket::bind("127.0.0.1:0").unwrap();
+    let (mut total, mut failed, mut silent) = (0u64, 0u64, 0u64);
+    for i in 0..2_400 {
+        let proto = if i % 2 == 0 { Proto::Classic } else { Proto::Ietf };
+        match probe_on(&s, sp.cfg.port, &pk, proto, rng, std::time::Duration::from_millis(500)) {
+            Ok(_) => total += 1,
+            Err(e) if e.starts_with("no reply") => silent += 1,
+            Err(_) => {
+                total += 1;
+                failed += 1;
+            }
+        }
+        if silent > 24 {
+            break;
+        }
+    }
+    sp.signal(libc::SIGTERM);
+    if sp.wait_exit(std::time::Duration::from_secs(5)).is_none() {
+        sp.kill();
+    }
+    out.case(crate::prng::fnv64(&seed), true);
+    if silent > 24 || total < 2_000 {
+        out.inconclusive("real-binary grease window: too many unanswered probes");
+        return;
+    }
+    let pf = p as f64 / 100.0;
+    let sigma = (pf * (1.0 - pf) / total as f64).sqrt();
+    let share = failed as f64 / total as f64;
+    out.obs("greased_windows_tested_real_binary", 1);
+    out.obs(&format!("greased_real_binary_source_{}", if cfg.via_env { "ENV" } else { "file" }), 1);
+    let e = out.extra.entry("grease_shares").or_insert_with(|| json!([]));
+    e.as_array_mut().unwrap().push(json!({"p": p, "origin": "real-binary", "source": if cfg.via_env { "ENV" } else { "file" }, "replies": total, "failing": failed, "share": share, "sigma": sigma, "deviation_in_sigma": (share - pf) / sigma}));
+    if (share - pf).abs() > 6.0 * sigma {
+        out.violation(
+            &format!("C02 grease share-off p={} origin=real-binary source={}", p, if cfg.via_env { "ENV" } else { "file" }),
+            &format!("real server with fault_percentage {}: {} of {} replies fail verification (share {:.4}, expected {:.4} +- 6*{:.4})", p, failed, total, share, pf, sigma),
+            json!({"kind":"greased-real","p":p}),
+        );
+    }
+}
+
 pub fn run(ctx: &Ctx, out: &mut Out, rng: &mut Rng) {
     // (a) every configured batch_size once (quick) / several times (thorough), fault 0
     let reps = if ctx.thorough { 24 } else { 8 };
@@ -180,6 +240,11 @@ pub fn run(ctx: &Ctx, out: &mut Out, rng: &mut Rng) {
             out.note("grease loop cut by wall budget");
             break;
         }
+    }
+    // (c) the same share on the real binary, configured through the file and through the
+    // environment (the in-process servers above get their settings from the harness directly)
+    if ctx.shard < 4 || ctx.thorough {
+        real_binary_grease(ctx, out, rng);
     }
     out.floor("replies_verified", 500);
     out.floor("batches_ge2_classic", 20);
